@@ -1227,6 +1227,16 @@ impl<'a> G01<'a> {
             let tail = if self.rng.chance(2, 3) { sym(self.rng.pick_str(&SYMS)) } else { int(self.small_int()) };
             return Sx::Dotted(items, Box::new(tail));
         }
+        // or an unquoted tail: `(a . ,e), which the reader spells (a unquote e)
+        if self.rng.chance(1, 6) {
+            let e = if level == 0 {
+                let t = self.random_data_ty();
+                self.qq_unquote_expr(&t, d)
+            } else {
+                self.const_expr()
+            };
+            return Sx::Dotted(items, Box::new(list(vec![sym("unquote"), e])));
+        }
         list(items)
     }
 
